@@ -778,7 +778,13 @@ func validateFieldMapping(predecessorType reflect.Type, successorType reflect.Ty
 	return &handlerPair{
 		invoke: checker,
 		transform: func(input streamReader) streamReader {
-			return packStreamReader(schema.StreamReaderWithConvert(input.toAnyStreamReader(), checker))
+			return packStreamReader(schema.StreamReaderWithConvert(input.toAnyStreamReader(), func(v any) (map[string]any, error) {
+				checked, err := checker(v)
+				if err != nil {
+					return nil, err
+				}
+				return checked.(map[string]any), nil
+			}))
 		},
 	}, nil
 }
